@@ -3,7 +3,7 @@ CONSTANTS
   Bugs = {}
   Ghosts = TRUE
   MaxK = 2
-  MaxCtl = 5
+  MaxCtl = 4
   Cap = 3
   Sizes = {2, 3}
   NameSet = {"f"}
@@ -11,7 +11,7 @@ CONSTANTS
   Maxes = {5}
   ExSets = {{"a"}}
   TsSet = {100}
-  CtlOps = {"enable", "disable", "exempt", "max"}
+  CtlOps = {"enable", "disable", "exempt"}
   Dir0 = 1
 SPECIFICATION MSpec
 SYMMETRY Sym
